@@ -1,7 +1,7 @@
 import re
 
 from prophyc import model
-from prophyc.generators.base import GenerateError, GeneratorBase, TranslatorBase, check_cpp_names
+from prophyc.generators.base import GenerateError, GeneratorBase, TranslatorBase, check_cpp_names, CPP_RAW_RUNTIME_NAMES
 
 primitive_types = {
     'u8': 'uint8_t',
@@ -408,7 +408,7 @@ class CppGenerator(GeneratorBase):
 
     def check_nodes(self, nodes):
         """ the blocks of a dynamic struct are nested structs part2, part3, ...; a union holds `enum _discriminator` """
-        check_cpp_names(nodes, generated=r"(part([2-9]|[1-9][0-9]+)|_discriminator)\Z")
+        check_cpp_names(nodes, generated=r"(part([2-9]|[1-9][0-9]+)|_discriminator)\Z", runtime=CPP_RAW_RUNTIME_NAMES)
         for n in nodes:
             if isinstance(n, (model.Struct, model.Union)) and n.byte_size is None:
                 raise GenerateError('{0} byte size unknown'.format(n.name))
